@@ -48,8 +48,27 @@ def digest(tables):
     return h.hexdigest()
 
 
-def diff_tables(a, b, ignore_rows=None, ignore_cols=()):
-    """list of (table, key, column, a, b) where two runs differ, ignoring the given row predicates {table: fn(key)}"""
+NOISE = {"cells": 0}
+
+
+def _same(x, y, rtol):
+    if x == y:
+        return True
+    if rtol and isinstance(x, str) and isinstance(y, str) and "0x" in x and "0x" in y:
+        try:
+            fx, fy = float.fromhex(x), float.fromhex(y)
+        except ValueError:
+            return False
+        if abs(fx - fy) <= rtol * max(1.0, abs(fx), abs(fy)):
+            NOISE["cells"] += 1
+            return True
+    return False
+
+
+def diff_tables(a, b, ignore_rows=None, ignore_cols=(), rtol=0.0):
+    """list of (table, key, column, a, b) where two runs differ, ignoring the given row predicates {table: fn(key)};
+    rtol > 0: real-valued cells may differ by that relative amount (counted in NOISE) - used only where the lengths of the
+    floating-point sums differ between the two runs by construction"""
     out = []
     for name in sorted(set(a) | set(b)):
         if name not in a or name not in b:
@@ -66,7 +85,7 @@ def diff_tables(a, b, ignore_rows=None, ignore_cols=()):
             for c in sorted(set(ra[k]) | set(rb[k])):
                 if c in ignore_cols:
                     continue
-                if ra[k].get(c) != rb[k].get(c):
+                if not _same(ra[k].get(c), rb[k].get(c), rtol):
                     out.append((name, k, c, ra[k].get(c), rb[k].get(c)))
     return out
 
